@@ -89,15 +89,16 @@ type nodeState struct {
 	image    crashStats
 
 	// flags for classification
-	restarts        int
-	restartedSnap   bool // restarted from an image holding a snapshot
-	gotMsgSnap      bool
-	snapshotsTaken  int
-	lastSnapIdx     uint64
-	lastApplied     uint64
-	lastAppliedInit bool
-	slowTill        int
-	view            nodeView
+	restarts              int
+	restartedSnap         bool // restarted from an image holding a snapshot
+	gotMsgSnap            bool
+	restartedAfterMsgSnap bool
+	snapshotsTaken        int
+	lastSnapIdx           uint64
+	lastApplied           uint64
+	lastAppliedInit       bool
+	slowTill              int
+	view                  nodeView
 }
 
 type nodeView struct {
@@ -1030,6 +1031,10 @@ func (s *Sim) deathSig() string {
 		return p + "/data-race/one-command-at-a-time"
 	case s.listSeen && s.snapshotDue():
 		return p + "/node-death/snapshot-of-list"
+	case s.anyRestartAfterMsgSnap():
+		// a node that had installed a snapshot sent by the leader was killed
+		// and runs again from its crash image
+		return p + "/node-death/killed-after-installing-msgsnap"
 	case s.mgmtClass != "" && s.step-s.mgmtStep < 80 && (s.mgmtNoChange || (!s.rconfDel && !s.rconfAdd)):
 		// a management command was issued a moment ago (the ones that go
 		// through the log are executed by every replica a few steps later)
@@ -1048,6 +1053,15 @@ func (s *Sim) deathSig() string {
 		return p + "/node-death/" + s.lastCmdClass
 	}
 	return p + "/node-death/idle"
+}
+
+func (s *Sim) anyRestartAfterMsgSnap() bool {
+	for _, ns := range s.nodes {
+		if ns.restartedAfterMsgSnap {
+			return true
+		}
+	}
+	return false
 }
 
 // restartedAfterLoss: some node runs on a crash image in which unsynced
